@@ -226,6 +226,13 @@ func (g *Gen) Make(kind string) Op {
 		o.CasClass = g.casClass([]int{2, 6, 2, 1})
 		o.X = g.xset(2, false)
 		o.DelBody = g.R.Bool()
+		if g.R.Chance(1, 5) {
+			// the older entry point for the same write: one xattr, no deletions, DeleteBody not set
+			o.DelBody, o.Legacy = false, true
+			o.X = g.xset(1, false)
+			g.maybeMacro(&o)
+			break
+		}
 		if g.R.Chance(1, 4) {
 			o.XDel = g.xnames(1)
 			for _, d := range o.XDel {
@@ -445,6 +452,7 @@ func Variants() []Op {
 		add(Op{Kind: KWriteWX, CasClass: cc, Body: jb, X: xs, XDel: []string{"u1"}, Preserve: true})
 		add(Op{Kind: KWriteTomb, CasClass: cc, X: xs, Exp: farExp + 6})
 		add(Op{Kind: KWriteTomb, CasClass: cc, X: xs, DelBody: true})
+		add(Op{Kind: KWriteTomb, CasClass: cc, X: xs, Legacy: true, Exp: farExp + 13})
 		add(Op{Kind: KSetMeta, CasClass: cc, NewCasClass: "above", Body: jb, JSON: true, XRaw: []byte(`{"_sync":{"m":1},"u2":[1]}`), Exp: farExp + 7})
 		add(Op{Kind: KDelMeta, CasClass: cc, NewCasClass: "above", XRaw: []byte(`{"_sync":{"m":2}}`)})
 		add(Op{Kind: KWriteSub, CasClass: cc, Path: "sub.p", Body: []byte(`"new"`)})
